@@ -32,6 +32,7 @@ func c07(c *Ctx) {
 	sQuorum(c, "R6/S-QUORUM")
 	c07R7(c, "R7")
 	sConfigClone(c, "R7/S-CFGCLONE")
+	sConfigCodec(c, "R8/S-CFGCODEC")
 	sState(c, "R7/S-STATE")
 }
 
